@@ -33,6 +33,47 @@ def run_case(case, rng):
         _mdp_case(case, rng)
     else:
         _pomdp_case(case, rng)
+    if rng.random() < 0.12:
+        _default_cap_case(case, rng)
+
+
+def _default_cap_case(case, rng):
+    """a caller who leaves max_steps out gets the documented cap of 2**30, i.e. in practice none: on a long deterministic
+    corridor the roll-out walks to the absorbing end, and evaluate_on averages over complete roll-outs"""
+    import random as _random
+    from msdm.core.mdp import FunctionalPolicy
+    from msdm.core.distributions import DictDistribution
+    from mon.gen import build as Bd
+    n = rng.choice([60, 75, 120])
+    gamma = rng.choice([0.5, 0.9, 1.0])
+    sp = G.Spec()
+    sp.family, sp.gamma = "corridor", gamma
+    sp.states = list(range(n + 1))
+    for i in range(n + 1):
+        sp.acts[i] = ("go",)
+        t = min(i + 1, n)
+        sp.P[(i, "go")] = [(t, 1.0)]
+        sp.kind[(i, "go")] = "dict"
+        sp.R[(i, "go", t)] = -1.0 if i < n else 0.0
+    sp.flag = {n}
+    sp.init = [(0, 1.0)]
+    sp.meta.update(abs_type="bool", num_type="float", actions_type="tuple", fresh_labels=False)
+    mdp = Bd.SpecMDP(sp)
+    pol = FunctionalPolicy(lambda s: DictDistribution({"go": 1.0}))
+    sim = case.call("Policy.run_on(default max_steps)", pol.run_on, mdp, rng=_random.Random(1))
+    case.count("default_cap_rollouts")
+    if sim is not case.FAIL:
+        states = list(sim.state)
+        case.check(states == list(range(n + 1)), "rollout:stopped-before-the-absorbing-state-although-no-cap-was-given",
+                   lambda: f"corridor of {n} steps: visited {len(states)} states, last {states[-1]!r}")
+    res = case.call("Policy.evaluate_on(default max_steps)", pol.evaluate_on, mdp, n_simulations=2, rng=_random.Random(2))
+    if res is not case.FAIL:
+        want0 = -float(n) if gamma == 1.0 else -(1 - gamma ** n) / (1 - gamma)
+        got_states = set(res.state_value.keys())
+        case.check(got_states == set(range(n + 1)), "evaluate_on:roll-outs-truncated-although-no-cap-was-given",
+                   lambda: f"corridor of {n} steps, gamma {gamma}: {len(got_states)} of {n + 1} states visited")
+        case.check(abs(float(res.initial_value) - want0) <= 1e-9 * max(1.0, abs(want0)), "evaluate_on:initial_value!=exact-return",
+                   lambda: f"{float(res.initial_value)!r} vs {want0!r}")
 
 
 def _returns(rewards, gamma):
